@@ -367,6 +367,17 @@ def handle (req : Json) : Except String Json := do
       let p ← built
       Patch.apply p doc
     pure (Json.mkObj [("result", encRes encJ r), ("asdicts", encRes (fun p => encJ (Patch.asdicts p)) built)])
+  | "patch.apply_parts" =>
+    let kind ← req.getObjValAs? String "kind"
+    let ps ← getParts req "parts"
+    let doc ← getJ req "doc"
+    let op : Patch.Op ← match kind with
+      | "test" => pure (Patch.Op.test ps (← getJ req "value"))
+      | "replace" => pure (Patch.Op.replace ps (← getJ req "value"))
+      | "remove" => pure (Patch.Op.remove ps)
+      | "add" => pure (Patch.Op.add ps (← getJ req "value"))
+      | o => throw s!"bad kind {o}"
+    pure (Json.mkObj [("result", encRes encJ (Patch.apply [op] doc))])
   | "patch.spec" =>
     let ops ← req.getObjVal? "ops"
     let .arr ops := ops | throw "ops"
@@ -385,6 +396,22 @@ def handle (req : Json) : Except String Json := do
     let std := !specPath.fake && Rfc.stdSegs specPath.segs && Rfc.wellFormedSegs specPath.segs
     let spec := if std then (Rfc.query RegexImpl.rx specPath.segs doc).map encRNode else []
     pure (Json.mkObj [("nodes", .arr (nodes.map encNode).toArray), ("std", .bool std), ("spec", .arr spec.toArray)])
+  | "q.compound" =>
+    let first ← decPath (← req.getObjVal? "first")
+    let restJ ← req.getObjVal? "rest"
+    let .arr restA := restJ | throw "rest"
+    let rest ← restA.toList.mapM (fun j => do
+      match j with
+      | .arr #[.str op, pj] => do
+        let p ← decPath pj
+        pure (op == "|", p)
+      | _ => throw "bad rest")
+    let doc ← getJ req "doc"
+    let extra ← getJ req "extra"
+    let c : Compound := ⟨first, rest⟩
+    let nodes := Query.compoundFinditer RegexImpl.rx c doc extra
+    let vals := Query.compoundFindall RegexImpl.rx c doc extra
+    pure (Json.mkObj [("nodes", .arr (nodes.map encNode).toArray), ("values", .arr (vals.map encJ).toArray)])
   | "q.slice" =>
     let len ← req.getObjValAs? Nat "len"
     let a ← optInt (← req.getObjVal? "a")
